@@ -234,6 +234,14 @@ Fixpoint cc_fold (c : s2p_cfg) (ccs : list (flt * Z * Z)) (acc : list (Z * Z * Z
       else cc_fold c r acc
   end.
 
+(* sorted(control_changes, key=time): stable insertion sort (repo commit 9befe56: the latest change of a frame wins) *)
+Fixpoint ins_cc (x : flt * Z * Z) (l : list (flt * Z * Z)) : list (flt * Z * Z) :=
+  match l with
+  | [] => [x]
+  | y :: r => if PrimFloat.leb (fst (fst x)) (fst (fst y)) then x :: l else y :: ins_cc x r
+  end.
+Definition sort_ccs (l : list (flt * Z * Z)) : list (flt * Z * Z) := fold_right ins_cc [] l.
+
 Record s2p_out := {
   o_rows : Z;
   o_active : list (list bool); o_onsets : list (list bool); o_offsets : list (list bool);
@@ -246,7 +254,7 @@ Definition s2p (c : s2p_cfg) (notes : list snote) (ccs : list (flt * Z * Z)) : Z
   match first_error c (painted_notes c notes) with
   | Some e => inl e
   | None =>
-      match cc_fold c ccs [] with
+      match cc_fold c (sort_ccs ccs) [] with
       | None => inl 2
       | Some cc =>
           inr {| o_rows := rows_of c;
